@@ -515,7 +515,7 @@ func (d *Driver) Times() {
 	// the zero Time, instants before year 1 (they are not "zero": the entry and the field carry a time) and the far future
 	vals = append(vals, time.Time{}, time.Time{}.Add(-1), time.Time{}.Add(-time.Hour).In(zone), time.Date(0, 6, 1, 12, 0, 0, 5, time.UTC), time.Date(-400, 1, 1, 0, 0, 0, 0, time.UTC),
 		time.Date(9999, 12, 31, 23, 59, 59, 999999999, time.UTC), time.Date(2262, 4, 11, 23, 47, 16, 854775807, time.UTC))
-	encs := []string{"epoch", "epochmillis", "epochnanos", "iso8601", "rfc3339", "rfc3339nano", "plainlayout", "nil", "noop"}
+	encs := []string{"epoch", "epochmillis", "epochnanos", "iso8601", "rfc3339", "rfc3339nano", "plainlayout", "emptylayout", "nil", "noop"}
 	par.For(len(encs), func(ei int) {
 		l := d.local("times")
 		c := DefaultCfg()
